@@ -13,9 +13,12 @@ import (
 	"fmt"
 	"math"
 	"math/rand"
+	"os"
 	"runtime"
 	"sync"
+	"sync/atomic"
 	"testing"
+	"time"
 
 	"github.com/plgd-dev/go-coap/v3/message"
 	"github.com/plgd-dev/go-coap/v3/message/codes"
@@ -329,17 +332,55 @@ func TestRun(t *testing.T) {
 	workers := runtime.GOMAXPROCS(0)
 	n := vr.Scale(40000, 4000000)
 	nbig := vr.Scale(300, 20000)
+	// stall monitor: an encode / decode call that does not return (totality is part of "exact inverses": the result has to
+	// arrive). 20 s without progress on a worker that is inside a case ends the run with that case as the witness.
+	ticks := make([]atomic.Int64, workers)
+	curs := make([]atomic.Pointer[caseDesc], workers)
+	stopMon := make(chan struct{})
+	defer close(stopMon)
+	go func() {
+		last := make([]int64, workers)
+		since := make([]time.Time, workers)
+		for {
+			select {
+			case <-stopMon:
+				return
+			case <-time.After(500 * time.Millisecond):
+			}
+			for i := range ticks {
+				tk := ticks[i].Load()
+				c := curs[i].Load()
+				if c == nil || tk != last[i] {
+					last[i] = tk
+					since[i] = time.Now()
+					continue
+				}
+				if time.Since(since[i]) > 20*time.Second {
+					buf := make([]byte, 1<<18)
+					k := runtime.Stack(buf, true)
+					os.Stderr.Write(buf[:k])
+					rec.Violation("C01/codec-call-does-not-return", "a round trip of a well-formed message through the coders / the pooled API has not returned within 20 s", *c)
+					rec.Flush(false)
+					os.Exit(4)
+				}
+			}
+		}
+	}()
 	var wg sync.WaitGroup
 	for w := 0; w < workers; w++ {
 		wg.Add(1)
 		go func(w int) {
 			defer wg.Done()
+			defer curs[w].Store(nil)
 			p := pool.New(8, 2048)
 			for i := w; i < n+nbig; i += workers {
 				gs := seed*1_000_003 + int64(i)
 				rnd := rand.New(rand.NewSource(gs))
 				big := i >= n
 				m := gen.Msg(rnd, i, big)
+				cd := describe("both", m, gs)
+				curs[w].Store(&cd)
+				ticks[w].Add(1)
 				vr.CaseLog(gs)
 				c.checkOne("udp", udpcoder.DefaultCoder, false, m, gs, rnd)
 				rec.Eval(classSig("udp", m))
